@@ -530,3 +530,132 @@ Theorem two_state_mixed_dispatch :
   dispatch MFidelity Ket Op false = BOverlap /\ dispatch MFidelity Op Ket false = BOverlap
   /\ dispatch MTraceDistance Ket Op false = BTraceNorm /\ dispatch MTraceDistance Op Ket false = BTraceNorm.
 Proof. vm_compute. repeat split. Qed.
+
+From Coq Require Import Sorted.
+(* ------------------------------------------ projector / measure: tolerance grouping *)
+Lemma group_from_spec el : forall i lam tol j,
+  In j (group_from i el lam tol) <-> (i <= j < i + length el /\ near lam tol (nth (j - i) el 0%Z) = true).
+Proof.
+  induction el as [|e t IH]; intros i lam tol j; cbn [group_from length].
+  - split; [intros [] | intros [H _]; lia].
+  - destruct (near lam tol e) eqn:E.
+    + cbn [In]. rewrite IH. split.
+      * intros [H | [H1 H2]].
+        -- subst j. rewrite Nat.sub_diag. cbn. split; [lia | exact E].
+        -- split; [lia|]. replace (j - i) with (S (j - S i)) by lia. exact H2.
+      * intros [H1 H2]. destruct (Nat.eq_dec i j) as [->|Hn]; [left; reflexivity | right].
+        split; [lia|]. replace (j - i) with (S (j - S i)) in H2 by lia. exact H2.
+    + rewrite IH. split.
+      * intros [H1 H2]. split; [lia|]. replace (j - i) with (S (j - S i)) by lia. exact H2.
+      * intros [H1 H2]. destruct (Nat.eq_dec i j) as [->|Hn].
+        -- rewrite Nat.sub_diag in H2. cbn in H2. congruence.
+        -- split; [lia|]. replace (j - i) with (S (j - S i)) in H2 by lia. exact H2.
+Qed.
+
+(* the projector sums exactly the eigenvectors whose eigenvalue is strictly within tol of the outcome *)
+Theorem group_spec el lam tol j :
+  In j (group el lam tol) <-> (j < length el /\ (Z.abs (nth j el 0 - lam) < tol)%Z).
+Proof.
+  unfold group. rewrite group_from_spec. rewrite Nat.sub_0_r. unfold near. split.
+  - intros [H1 H2]. split; [lia|]. apply Z.ltb_lt. exact H2.
+  - intros [H1 H2]. split; [lia|]. apply Z.ltb_lt. exact H2.
+Qed.
+
+Lemma group_from_sorted el : forall i lam tol, StronglySorted lt (group_from i el lam tol).
+Proof.
+  induction el as [|e t IH]; intros i lam tol; cbn [group_from]; [constructor|].
+  destruct (near lam tol e); [|apply IH].
+  constructor; [apply IH|]. apply Forall_forall. intros j Hj. apply group_from_spec in Hj. lia.
+Qed.
+
+(* each selected eigenvector enters once, in ascending order *)
+Theorem group_sorted el lam tol : StronglySorted lt (group el lam tol).
+Proof. apply group_from_sorted. Qed.
+
+Lemma group_sum_sum_at_gen el : forall pj pre lam tol, length pj = length el ->
+  group_sum el pj lam tol = sum_at (pre ++ pj) (group_from (length pre) el lam tol).
+Proof.
+  induction el as [|e t IH]; intros pj pre lam tol Hl; destruct pj as [|p q]; try discriminate; [reflexivity|].
+  cbn [group_sum group_from]. cbn in Hl.
+  assert (Hq : pre ++ p :: q = (pre ++ [p]) ++ q) by (rewrite <- app_assoc; reflexivity).
+  assert (Hlen : S (length pre) = length (pre ++ [p])) by (rewrite app_length; cbn; lia).
+  specialize (IH q (pre ++ [p]) lam tol ltac:(lia)). rewrite <- Hlen, <- Hq in IH.
+  destruct (near lam tol e).
+  - cbn [sum_at fold_right]. fold (sum_at (pre ++ p :: q) (group_from (S (length pre)) t lam tol)).
+    rewrite <- IH. rewrite app_nth2 by lia. rewrite Nat.sub_diag. cbn [nth]. reflexivity.
+  - rewrite <- IH. lia.
+Qed.
+
+(* measure()'s boolean-mask normaliser sums the probabilities of exactly the
+   eigenvectors projector() sums - when both are given the same tolerance *)
+Theorem group_sum_is_sum_over_group el pj lam tol : length pj = length el ->
+  group_sum el pj lam tol = sum_at pj (group el lam tol).
+Proof. intros H. exact (group_sum_sum_at_gen el pj [] lam tol H). Qed.
+
+Lemma near_mono lam tol1 tol2 e : (tol1 <= tol2)%Z -> near lam tol1 e = true -> near lam tol2 e = true.
+Proof. unfold near. intros H H1. apply Z.ltb_lt in H1. apply Z.ltb_lt. lia. Qed.
+
+(* a projector built with tol1 and a normaliser summed with tol2 >= tol1 differ by
+   the probability mass of the levels with tol1 <= |e - outcome| < tol2 *)
+Theorem group_sum_annulus el : forall pj lam tol1 tol2, (tol1 <= tol2)%Z ->
+  group_sum el pj lam tol2 = (group_sum el pj lam tol1 + annulus_sum el pj lam tol1 tol2)%Z.
+Proof.
+  induction el as [|e t IH]; intros pj lam tol1 tol2 H; destruct pj as [|p q]; try reflexivity.
+  cbn [group_sum annulus_sum]. rewrite (IH q lam tol1 tol2 H).
+  destruct (near lam tol1 e) eqn:E1.
+  - rewrite (near_mono lam tol1 tol2 e H E1). cbn. lia.
+  - destruct (near lam tol2 e); cbn; lia.
+Qed.
+
+Lemma group_from_same_iff el : forall i lam tol1 tol2,
+  group_from i el lam tol1 = group_from i el lam tol2 <-> (forall e, In e el -> near lam tol1 e = near lam tol2 e).
+Proof.
+  induction el as [|e t IH]; intros i lam tol1 tol2; cbn [group_from].
+  - split; [intros _ x [] | reflexivity].
+  - split.
+    + intros H x [Hx|Hx].
+      * subst x. destruct (near lam tol1 e) eqn:E1, (near lam tol2 e) eqn:E2; try reflexivity; exfalso.
+        -- assert (Hin : In i (group_from (S i) t lam tol2)) by (rewrite <- H; left; reflexivity).
+           apply group_from_spec in Hin. lia.
+        -- assert (Hin : In i (group_from (S i) t lam tol1)) by (rewrite H; left; reflexivity).
+           apply group_from_spec in Hin. lia.
+      * revert x Hx. apply (IH (S i)).
+        destruct (near lam tol1 e) eqn:E1, (near lam tol2 e) eqn:E2.
+        -- injection H. auto.
+        -- exfalso. assert (Hin : In i (group_from (S i) t lam tol2)) by (rewrite <- H; left; reflexivity).
+           apply group_from_spec in Hin. lia.
+        -- exfalso. assert (Hin : In i (group_from (S i) t lam tol1)) by (rewrite H; left; reflexivity).
+           apply group_from_spec in Hin. lia.
+        -- exact H.
+    + intros H. rewrite (H e (or_introl eq_refl)).
+      assert (Ht : group_from (S i) t lam tol1 = group_from (S i) t lam tol2).
+      { apply IH. intros x Hx. apply H. right. exact Hx. }
+      rewrite Ht. reflexivity.
+Qed.
+
+(* the tolerance matters exactly when some level lies between the two tolerances:
+   two tolerances select the same eigenvectors iff they classify every level alike *)
+Theorem group_tol_same_iff el lam tol1 tol2 :
+  group el lam tol1 = group el lam tol2 <->
+  (forall e, In e el -> ((Z.abs (e - lam) < tol1)%Z <-> (Z.abs (e - lam) < tol2)%Z)).
+Proof.
+  unfold group. rewrite group_from_same_iff. unfold near. split; intros H e He; specialize (H e He).
+  - rewrite <- !Z.ltb_lt. rewrite H. tauto.
+  - destruct (Z.abs (e - lam) <? tol1)%Z eqn:E1, (Z.abs (e - lam) <? tol2)%Z eqn:E2; try reflexivity; exfalso.
+    + apply Z.ltb_lt in E1. apply Z.ltb_ge in E2. apply H in E1. lia.
+    + apply Z.ltb_lt in E2. apply Z.ltb_ge in E1. apply H in E2. lia.
+Qed.
+
+(* the model of measure() hands ONE tolerance to both cooperating sites, and the
+   sampled-outcome path groups around the sampled level *)
+Theorem measure_model_consistent el pj lam tol : length pj = length el ->
+  let '(out, proj, nrm) := measure_model el pj lam tol in
+  out = lam /\ proj = group el lam tol /\ nrm = sum_at pj proj.
+Proof. intros H. cbn. repeat split. apply group_sum_is_sum_over_group. exact H. Qed.
+
+Theorem measure_sampled_contains_level el pj j tol : j < length el -> (0 < tol)%Z ->
+  let '(out, proj, _) := measure_sampled el pj j tol in out = nth j el 0%Z /\ In j proj.
+Proof.
+  intros Hj Ht. cbn. split; [reflexivity|]. apply group_spec. split; [exact Hj|].
+  rewrite Z.sub_diag. cbn. exact Ht.
+Qed.
